@@ -2,6 +2,7 @@ pub mod common;
 
 pub mod c01;
 pub mod c02;
+pub mod c03;
 pub mod c05;
 pub mod c07;
 pub mod c08;
@@ -16,6 +17,7 @@ pub fn run(check: &str, ctx: &mut Ctx) -> bool {
     match check {
         "c01" => c01::run(ctx),
         "c02" => c02::run(ctx),
+        "c03" => c03::run(ctx),
         "c05" => c05::run(ctx),
         "c07" => c07::run(ctx),
         "c08" => c08::run(ctx),
